@@ -281,9 +281,57 @@ def stage_effects_pull(ctx):
                 os.environ["TMPDIR"] = saved_tmp[1]
 
 
+def stage_cli_names(ctx):
+    """every route by which the CLI stores an acquisition or file name: `acq create NAME`, `file create NAME ACQ --md5 --size`,
+    `file create NAME ACQ --from-file [--prefix P]` (with a regular file really there), for canonical and non-canonical
+    spellings; whatever ends up in the index must be a canonical relative path (the property's acceptance clause)"""
+    import os
+    import env as envmod
+    names = ["x.dat", "a/b.dat", "a.b/c..d", "../x.dat", "./x.dat", "a//b.dat", "a/../b.dat", "/abs/x.dat", "x.dat/", ".", "..", "a/./b.dat",
+             "a/..", "a/b/", "../../escaped.dat", "a/../../up.dat", "//x.dat", "a/.", " ", "a/ /b"]
+    with envmod.CliEnv() as e:
+        from alpenhorn import db
+        prefix = os.path.join(e.tmp, "prefix")
+        for name in names:
+            routes = [("acq create", ["acq", "create", name]),
+                      ("file create --md5 --size", ["file", "create", name, "ACQ0", "--md5", "0" * 32, "--size", "3"]),
+                      ("file create --from-file --prefix", ["file", "create", name, "ACQ0", "--from-file", "--prefix", prefix]),
+                      ("file create --from-file (cwd)", ["file", "create", name, "ACQ0", "--from-file"])]
+            for label, argv in routes:
+                for m in (db.ArchiveFileCopyRequest, db.ArchiveFileImportRequest, db.ArchiveFileCopy, db.ArchiveFile, db.ArchiveAcq):
+                    m.delete().execute()
+                db.ArchiveAcq.create(name="ACQ0")
+                cwd = os.getcwd()
+                if "--from-file" in argv:
+                    base = prefix if "--prefix" in argv else os.path.join(e.tmp, "cwd")
+                    target = os.path.normpath(os.path.join(base, "ACQ0", name)) if not name.startswith("/") else None
+                    try:
+                        if target and target.startswith(e.tmp) and not os.path.isdir(target):
+                            os.makedirs(os.path.dirname(target), exist_ok=True)
+                            with open(target, "wb") as fh:
+                                fh.write(b"abc")
+                    except OSError:
+                        pass
+                    os.makedirs(os.path.join(e.tmp, "cwd"), exist_ok=True)
+                    os.chdir(os.path.join(e.tmp, "cwd"))
+                try:
+                    rc, out, exc = e.cli(argv)
+                finally:
+                    os.chdir(cwd)
+                stored = [("acquisition", a.name) for a in db.ArchiveAcq.select() if a.name != "ACQ0"] + \
+                         [("file", f.name) for f in db.ArchiveFile.select()]
+                ctx.case(("cli-name", label, name), nontrivial=True)
+                ctx.count(f"cli-names:{label}:{'canonical' if oracle_canonical(name) else 'odd'}:{'stored' if stored else 'refused'}")
+                for what, nm in stored:
+                    if not oracle_canonical(nm):
+                        ctx.violation("cli-name:" + label.replace(" ", "_"), f"`alpenhorn {' '.join(argv)}` stored the {what} name {nm!r}, which is "
+                                      f"not a canonical relative path (exit code {rc})", {"kind": "cli-name", "argv": argv, "stored": nm})
+
+
 def run(ctx):
     ok = common.proof_stage(ctx, MODULE)
     div_iip, div_norm = run_strings(ctx)
+    stage_cli_names(ctx)
     stage_effects(ctx)
     stage_effects_pull(ctx)
     # the names a recursive import (scan) request stores, for canonical, dotted and escaping spellings of the directory
